@@ -162,7 +162,15 @@ def canon(f, depth=0):
                     break
         if depends:
             dep.append(leaf)
-    return ("canon", tuple(dep), table(f, dep))
+    if len(dep) == len(ls):
+        return ("canon", tuple(dep), tb)
+    rest = [l for l in ls if l not in dep]
+    out = []
+    for bits in product((False, True), repeat=len(dep)):
+        env = dict(zip(dep, bits))
+        env.update({l: False for l in rest})
+        out.append(evalf(f, env))
+    return ("canon", tuple(dep), tuple(out))
 
 
 def is_valid(f) -> bool:
